@@ -37,4 +37,9 @@ impl Datamodel for ECMAScriptDatamodel {
         unimplemented!()
     }
 
+    #[verifier::external_body]
+    fn verif_execute_for_each(&mut self, fsm: &Fsm, content_id: ExecutableContentId, array_expression: &Data, item_name: &str, index: &str) -> (r: bool) {
+        unimplemented!()
+    }
+
     // executeContent: the REAL body, extracted from src/datamodel/ecma_script.rs (see below)
